@@ -124,6 +124,17 @@ func callsIn(fn *ssa.Function, withClosures bool) []ssa.CallInstruction {
 	return out
 }
 
+// callsInOwn: the calls written in fn itself (no closures, no helpers).
+func callsInOwn(fn *ssa.Function) []ssa.CallInstruction {
+	var out []ssa.CallInstruction
+	eachInstr(fn, func(i ssa.Instruction) {
+		if c, ok := i.(ssa.CallInstruction); ok {
+			out = append(out, c)
+		}
+	})
+	return out
+}
+
 // callsMatching returns the calls in fn whose callee full name has the given suffix.
 func callsMatching(fn *ssa.Function, withClosures bool, pred func(full string) bool) []ssa.CallInstruction {
 	var out []ssa.CallInstruction
@@ -918,7 +929,7 @@ func (s *symCtx) allocName(a *ssa.Alloc, d int) string {
 		t := a.Type().(*types.Pointer).Elem()
 		return "new:" + types.TypeString(t, shortQual)
 	}
-	return "local:" + n
+	return "local:" + allocPinnedName(a)
 }
 
 func fieldName(t types.Type, i int) string {
@@ -1155,11 +1166,20 @@ func factsAtSelf(b *ssa.BasicBlock) []Atom { return nil }
 
 // litFields renders a composite literal built field by field into a fresh alloc: T{F: v, ...}.
 func (s *symCtx) litFields(a *ssa.Alloc, d int) string {
-	if a.Comment != "complit" || s.seen[a] {
+	if s.seen[a] {
 		return ""
+	}
+	// a named local initialised by a composite literal ("ev := T{...}") is built in place by go/ssa: treat it as
+	// the literal when it is a struct whose fields are each stored once and which is never stored as a whole
+	named := a.Comment != "complit"
+	if named {
+		if _, isStruct := a.Type().(*types.Pointer).Elem().Underlying().(*types.Struct); !isStruct || a.Heap && false {
+			return ""
+		}
 	}
 	var parts []string
 	whole := false
+	dup := map[string]int{}
 	var collect func(prefix string, addr ssa.Value)
 	collect = func(prefix string, addr ssa.Value) {
 		refs := addr.Referrers()
@@ -1174,6 +1194,7 @@ func (s *symCtx) litFields(a *ssa.Alloc, d int) string {
 						whole = true
 						return
 					}
+					dup[prefix]++
 					s.seen[a] = true
 					parts = append(parts, prefix+": "+s.expr(x.Val, d+2))
 					delete(s.seen, a)
@@ -1193,6 +1214,60 @@ func (s *symCtx) litFields(a *ssa.Alloc, d int) string {
 	}
 	if len(parts) == 0 {
 		return ""
+	}
+	if named {
+		for _, n := range dup {
+			if n > 1 {
+				return ""
+			}
+		}
+		// all initialising stores in one block (a literal, not a variable updated along the way)
+		var blk *ssa.BasicBlock
+		same := true
+		var chk func(addr ssa.Value)
+		chk = func(addr ssa.Value) {
+			for _, r := range *addr.Referrers() {
+				switch x := r.(type) {
+				case *ssa.Store:
+					if x.Addr == addr {
+						if blk == nil {
+							blk = x.Block()
+						} else if blk != x.Block() {
+							same = false
+						}
+					}
+				case *ssa.FieldAddr:
+					chk(x)
+				}
+			}
+		}
+		chk(a)
+		if !same {
+			return ""
+		}
+		// the variable (or a field of it) must not be written through an escaping address
+		escapes := false
+		var esc func(addr ssa.Value)
+		esc = func(addr ssa.Value) {
+			for _, r := range *addr.Referrers() {
+				switch x := r.(type) {
+				case *ssa.Store:
+					if x.Addr != addr {
+						escapes = true
+					}
+				case *ssa.UnOp:
+				case *ssa.FieldAddr:
+					esc(x)
+				case *ssa.DebugRef:
+				default:
+					escapes = true
+				}
+			}
+		}
+		esc(a)
+		if escapes {
+			return ""
+		}
 	}
 	sort.Strings(parts)
 	t := a.Type().(*types.Pointer).Elem()
